@@ -142,7 +142,13 @@ func RunHX(c HXCheck, tier string) int {
 	var viols []string
 	knownSeen := map[string]*Finding{}
 	perScope := map[string]interface{}{}
-	for _, name := range c.Scopes {
+	for si, name := range c.Scopes {
+		// fair share of what is left of the budget: a scope that finishes early leaves its time to the later ones, a
+		// scope that does not finish cannot starve them (each is cut at a complete BFS level or inside one, and says so)
+		scopeDeadline := deadline
+		if left := time.Until(deadline); left > 0 {
+			scopeDeadline = time.Now().Add(left / time.Duration(len(c.Scopes)-si))
+		}
 		classify := func(v *hx.Violation) string {
 			if f := MatchFinding(c.Prop, v.Notes, v.Fail.Kind, v.Fail.Msg); f != nil {
 				knownSeen[f.ID] = f
@@ -180,7 +186,7 @@ func RunHX(c HXCheck, tier string) int {
 			evid.Violation(c.Prop, p)
 			fmt.Printf("  %s\n  program: %s\n", v.Fail.Error(), apix.ProgString(v.Prog))
 		}
-		st := hx.Explore(pool, name, tier, deadline, classify, onViol)
+		st := hx.Explore(pool, name, tier, scopeDeadline, classify, onViol)
 		total.States += st.States
 		total.Transitions += st.Transitions
 		total.Failures += st.Failures
@@ -569,7 +575,11 @@ func subHX(prop string, scopes []string, tier string, cov map[string]interface{}
 			fmt.Printf("KNOWN-FINDING: property=%s %s: %s\n", prop, id, knownSeen[id].What)
 		}
 	}()
-	for _, name := range scopes {
+	for si, name := range scopes {
+		scopeDeadline := deadline
+		if left := time.Until(deadline); left > 0 {
+			scopeDeadline = time.Now().Add(left / time.Duration(len(scopes)-si))
+		}
 		classify := func(v *hx.Violation) string {
 			if f := MatchFinding(prop, v.Notes, v.Fail.Kind, v.Fail.Msg); f != nil {
 				knownSeen[f.ID] = f
@@ -588,7 +598,7 @@ func subHX(prop string, scopes []string, tier string, cov map[string]interface{}
 			evid.Violation(prop, p)
 			fmt.Printf("  %s\n  program: %s\n", v.Fail.Error(), apix.ProgString(v.Prog))
 		}
-		st := hx.Explore(pool, name, tier, deadline, classify, onViol)
+		st := hx.Explore(pool, name, tier, scopeDeadline, classify, onViol)
 		cov["hx_"+name] = map[string]interface{}{"states": st.States, "transitions": st.Transitions, "max_depth": st.MaxDepth,
 			"exhaustive": st.Exhaustive, "caps_hit": st.Capped, "known_finding_hits": st.Known, "harness_errors": st.Errors, "samples": st.Samples}
 		if s, ok := cov["states"].(int); ok {
